@@ -96,7 +96,7 @@ def assumed_table():
     sys.path.insert(0, VERIF)
     import importlib
     allc = {}
-    for m in ('engine_terms', 'engine_heap', 'engine_atom', 'generator_body', 'generator_clause', 'generator_text', 'visitor', 'visitor_parse', 'ast_vars'):
+    for m in ('engine_terms', 'engine_heap', 'engine_atom', 'generator_body', 'generator_clause', 'generator_goal', 'generator_text', 'visitor', 'visitor_parse', 'ast_vars'):
         mod = importlib.import_module('contracts.' + m)
         for n, c in mod.C.items():
             allc.setdefault(n, []).append((m, c))
